@@ -595,7 +595,7 @@ def verdict(chk, reply, real, case, what, broken):
 def build(chk):
     rnd = random.Random(chk.seed)
     quick = chk.tier == "quick"
-    gdocs = exhaustive_docs() + [rand_doc(rnd) for _ in range(16 if quick else 120)]
+    gdocs = exhaustive_docs() + [rand_doc(rnd) for _ in range(16 if quick else 80)]
     tdocs = [typed_doc(rnd) for _ in range(30 if quick else 100)]
     # objects whose keys are made only of digits, next to arrays: a QUOTED subscript navigates by key, an integer one by position
     gdocs += [{"2024": 1, "0": "z", "7": [1, {"0": "q"}], "00": 5, "a": {"0": "in", "1": [7]}}, [10, 20, {"0": "k"}], {"0": [1, 2]}, {"a": ["p", "q"]}, ["s0", "s1"]]
@@ -650,7 +650,7 @@ def build(chk):
                     continue
                 exprs.append(("tn", e, "nested:" + ("two-level" if inner.count("parse_json") > 1 else "one-level")))
     # operator contexts over the typed documents
-    for _ in range(260 if quick else 3000):
+    for _ in range(260 if quick else 2000):
         ty = rnd.choice(["bool", "bool", "bool", "int", "text"])
         sql, _ = gen_ctx(rnd, ty, rnd.randint(1, 3))
         exprs.append(("tt", sql, f"ctx:{ty}"))
